@@ -31,6 +31,7 @@ import (
 )
 
 type c06Delivery struct {
+	output   string   // name of the output whose consumer got the chunk
 	pipeKeys []string // key set of the pipeline whose consumer got the chunk
 	tag      string   // tag inside the chunk
 	keys     []string // key fields of the record
@@ -47,6 +48,7 @@ type c06E2E struct {
 
 type c06Consumer struct {
 	env     *c06E2E
+	output  string
 	keys    []string
 	args    base.ChunkConsumerArgs
 	stalled bool
@@ -69,7 +71,7 @@ func (w *c06Consumer) run() {
 			if !ok {
 				return
 			}
-			w.env.record(w.keys, chunk)
+			w.env.record(w.output, w.keys, chunk)
 			w.args.OnChunkConsumed(chunk)
 		case <-w.args.InputClosed.Channel():
 			return
@@ -77,7 +79,7 @@ func (w *c06Consumer) run() {
 	}
 }
 
-func (env *c06E2E) record(pipeKeys []string, chunk base.LogChunk) {
+func (env *c06E2E) record(output string, pipeKeys []string, chunk base.LogChunk) {
 	env.mu.Lock()
 	defer env.mu.Unlock()
 	var message forwardprotocol.Message
@@ -86,7 +88,7 @@ func (env *c06E2E) record(pipeKeys []string, chunk base.LogChunk) {
 		return
 	}
 	for _, e := range message.Entries {
-		d := c06Delivery{pipeKeys: pipeKeys, tag: message.Tag, msg: -1}
+		d := c06Delivery{output: output, pipeKeys: pipeKeys, tag: message.Tag, msg: -1}
 		for _, n := range env.names {
 			v, _ := e.Record[n].(string)
 			d.keys = append(d.keys, v)
@@ -100,14 +102,14 @@ func (env *c06E2E) record(pipeKeys []string, chunk base.LogChunk) {
 
 func c06YAMLQuote(s string) string { return "'" + strings.ReplaceAll(s, "'", "''") + "'" }
 
-func c06WriteConfig(path, qroot, tmpl string, names []string) error {
+func c06WriteConfig(path, qroot, tmpl string, names []string, outputs []string) error {
 	var sb strings.Builder
 	fmt.Fprintf(&sb, "schema:\n  fields: [%s, mk, msg]\n  maxFields: 12\n", strings.Join(names, ", "))
 	sb.WriteString("inputs: []\n")
 	fmt.Fprintf(&sb, "orchestration:\n  type: byKeySet\n  keys: [%s]\n  tag: %s\n", strings.Join(names, ", "), c06YAMLQuote(tmpl))
-	sb.WriteString("metricKeys: [mk]\ntransformations: []\n")
-	fmt.Fprintf(&sb, `outputBufferPairs:
-  - name: out
+	sb.WriteString("metricKeys: [mk]\ntransformations: []\noutputBufferPairs:\n")
+	for _, o := range outputs {
+		fmt.Fprintf(&sb, `  - name: %s
     buffer:
       type: hybridBuffer
       rootPath: %s
@@ -124,12 +126,13 @@ func c06WriteConfig(path, qroot, tmpl string, names []string) error {
         tls: false
         secret: x
         maxDuration: 30m
-`, c06YAMLQuote(qroot))
+`, o, c06YAMLQuote(qroot+"-"+o))
+	}
 	return os.WriteFile(path, []byte(sb.String()), 0o644)
 }
 
 // one agent life: start the orchestrator from the config, feed the records, shut down
-func c06Agent(cfgPath string, env *c06E2E, stalled bool, sendAllAtEnd bool, tuples [][]string) (err string) {
+func c06Agent(cfgPath string, env *c06E2E, stalled func(output string) bool, sendAllAtEnd bool, tuples [][]string) (err string) {
 	defer func() {
 		if r := recover(); r != nil {
 			err = fmt.Sprintf("panic: %v", r)
@@ -153,7 +156,7 @@ func c06Agent(cfgPath string, env *c06E2E, stalled bool, sendAllAtEnd bool, tupl
 		env.mu.Lock()
 		keys := append([]string{}, env.current...)
 		env.mu.Unlock()
-		return &c06Consumer{env: env, keys: keys, args: cargs, stalled: stalled, stopped: channels.NewSignalAwaitable()}
+		return &c06Consumer{env: env, output: name, keys: keys, args: cargs, stalled: stalled(name), stopped: channels.NewSignalAwaitable()}
 	}
 	orch := loader.Orchestration.Value.StartOrchestrator(logger.Root(), args, mc)
 	if len(tuples) > 0 {
@@ -182,7 +185,7 @@ func c06RunE2E(c *Case) (out string, fails []Fail) {
 		return "badcase", nil
 	}
 	n, mode := int(c.Z[0]), int(c.Z[1])
-	if n < 1 || n > 8 || 1+n > len(c.S) || mode < 0 || mode > 1 {
+	if n < 1 || n > 8 || 1+n > len(c.S) || mode < 0 || mode > 2 {
 		return "badcase", nil
 	}
 	tmpl := string(c.S[0])
@@ -215,20 +218,39 @@ func c06RunE2E(c *Case) (out string, fails []Fail) {
 	defer os.RemoveAll(root)
 	cfgPath := filepath.Join(root, "config.yml")
 	qroot := filepath.Join(root, "q")
-	if err := c06WriteConfig(cfgPath, qroot, tmpl, names); err != nil {
+	outputs := []string{"out"}
+	if mode == 2 {
+		outputs = []string{"outA", "outB"} // two queue roots; only the one of outB still holds chunks at the restart
+	}
+	if err := c06WriteConfig(cfgPath, qroot, tmpl, names, outputs); err != nil {
 		panic(err)
 	}
 	env := &c06E2E{names: names}
+	never := func(string) bool { return false }
 	var aerr string
-	if mode == 0 {
-		aerr = c06Agent(cfgPath, env, false, true, tuples)
-	} else {
-		aerr = c06Agent(cfgPath, env, true, false, tuples)
+	switch mode {
+	case 0:
+		aerr = c06Agent(cfgPath, env, never, true, tuples)
+	case 1:
+		aerr = c06Agent(cfgPath, env, func(string) bool { return true }, false, tuples)
 		if aerr == "" {
 			if len(env.deliveries) != 0 {
 				fails = append(fails, Fail{"c06:e2e:stalled-delivery", "a stalled consumer received chunks"})
 			}
-			aerr = c06Agent(cfgPath, env, false, true, nil)
+			aerr = c06Agent(cfgPath, env, never, true, nil)
+		}
+	case 2:
+		aerr = c06Agent(cfgPath, env, func(string) bool { return true }, false, tuples)
+		if aerr == "" {
+			// as if outA had delivered everything before the shutdown: its queue directories stay, without chunks;
+			// the queues to recover are known from the root of outB only
+			filepath.Walk(qroot+"-outA", func(p string, info os.FileInfo, err error) error {
+				if err == nil && !info.IsDir() && strings.HasSuffix(p, ".ff") {
+					os.Remove(p)
+				}
+				return nil
+			})
+			aerr = c06Agent(cfgPath, env, never, true, nil)
 		}
 	}
 	if strings.HasPrefix(aerr, "config: ") {
@@ -243,51 +265,70 @@ func c06RunE2E(c *Case) (out string, fails []Fail) {
 	for _, b := range env.broken {
 		fails = append(fails, Fail{"c06:e2e:undecodable-chunk", b})
 	}
-	// canonical output: per record (by message number) the tag it was delivered under and the key set of the
-	// delivering pipeline, "-" if it was not delivered
-	got := make([][]c06Delivery, len(tuples))
-	for _, d := range env.deliveries {
-		if d.msg < 0 || d.msg >= len(tuples) {
-			fails = append(fails, Fail{"c06:e2e:phantom-record", fmt.Sprintf("delivered record without a valid message number (tag %q)", d.tag)})
-			continue
-		}
-		got[d.msg] = append(got[d.msg], d)
-	}
-	parts := make([]string, len(tuples))
+	// canonical output: per record (by message number) and output, the tag it was delivered under and the key set
+	// of the delivering pipeline, "-" if it was not delivered
 	tparts, refOK := c06RefParse(tmpl, names)
-	for i, t := range tuples {
-		switch len(got[i]) {
-		case 0:
-			parts[i] = "-"
-			class := "other"
-			switch {
-			case mode == 1 && strings.Join(t, ",") == "":
-				class = "empty-id"
-			case mode == 1 && strings.Contains(strings.Join(t, ""), ","):
-				class = "comma"
+	parts := make([]string, len(tuples))
+	if mode == 2 {
+		for _, d := range env.deliveries {
+			if d.output == "outA" {
+				fails = append(fails, Fail{"c06:e2e:ghost-delivery", fmt.Sprintf("output outA delivers a record (tag %q) although its queues were emptied", d.tag)})
+				break
 			}
-			if mode == 1 && len(strings.Join(t, ","))+9 > 255 {
-				continue // the queue directory could not be created (name too long): nothing was stored
+		}
+		outputs = []string{"outB"}
+	}
+	for oi, oname := range outputs {
+		restarted := mode >= 1
+		got := make([][]c06Delivery, len(tuples))
+		for _, d := range env.deliveries {
+			if d.output != oname {
+				continue
 			}
-			fails = append(fails, Fail{"c06:recovery-dropped:" + class, fmt.Sprintf("record with keys %s is not delivered (mode %d)", c06Q(t), mode)})
-		case 1:
-			d := got[i][0]
-			parts[i] = c06Hex(d.tag) + "/" + c06HexTuple(d.pipeKeys)
-			if !c06EqTuple(d.keys, t) {
-				fails = append(fails, Fail{"c06:e2e:record-changed", fmt.Sprintf("record %d: key fields %s delivered as %s", i, c06Q(t), c06Q(d.keys))})
+			if d.msg < 0 || d.msg >= len(tuples) {
+				fails = append(fails, Fail{"c06:e2e:phantom-record", fmt.Sprintf("delivered record without a valid message number (tag %q)", d.tag)})
+				continue
 			}
-			if !c06EqTuple(d.pipeKeys, t) {
-				fails = append(fails, Fail{"c06:pipeline-shared:" + c06PairClass(d.pipeKeys, t),
-					fmt.Sprintf("record with keys %s is delivered by the pipeline of key set %s (tag %q)", c06Q(t), c06Q(d.pipeKeys), d.tag)})
-			}
-			if refOK {
-				if want := c06RefExpand(tparts, t); want != d.tag {
-					fails = append(fails, Fail{"c06:tag:wrong", fmt.Sprintf("record with keys %s is delivered under tag %q, its own tag is %q (template %q)", c06Q(t), d.tag, want, tmpl)})
+			got[d.msg] = append(got[d.msg], d)
+		}
+		for i, t := range tuples {
+			part := ""
+			switch len(got[i]) {
+			case 0:
+				part = "-"
+				class := "other"
+				switch {
+				case restarted && strings.Join(t, ",") == "":
+					class = "empty-id"
+				case restarted && strings.Contains(strings.Join(t, ""), ","):
+					class = "comma"
 				}
+				if !(restarted && len(strings.Join(t, ","))+9 > 255) { // else: the queue directory could not be created, nothing was stored
+					fails = append(fails, Fail{"c06:recovery-dropped:" + class, fmt.Sprintf("record with keys %s is not delivered (mode %d, output %s)", c06Q(t), mode, oname)})
+				}
+			case 1:
+				d := got[i][0]
+				part = c06Hex(d.tag) + "/" + c06HexTuple(d.pipeKeys)
+				if !c06EqTuple(d.keys, t) {
+					fails = append(fails, Fail{"c06:e2e:record-changed", fmt.Sprintf("record %d: key fields %s delivered as %s", i, c06Q(t), c06Q(d.keys))})
+				}
+				if !c06EqTuple(d.pipeKeys, t) {
+					fails = append(fails, Fail{"c06:pipeline-shared:" + c06PairClass(d.pipeKeys, t),
+						fmt.Sprintf("record with keys %s is delivered by the pipeline of key set %s (tag %q)", c06Q(t), c06Q(d.pipeKeys), d.tag)})
+				}
+				if refOK {
+					if want := c06RefExpand(tparts, t); want != d.tag {
+						fails = append(fails, Fail{"c06:tag:wrong", fmt.Sprintf("record with keys %s is delivered under tag %q, its own tag is %q (template %q)", c06Q(t), d.tag, want, tmpl)})
+					}
+				}
+			default:
+				part = "dup"
+				fails = append(fails, Fail{"c06:e2e:duplicate", fmt.Sprintf("record %d delivered %d times by %s", i, len(got[i]), oname)})
 			}
-		default:
-			parts[i] = "dup"
-			fails = append(fails, Fail{"c06:e2e:duplicate", fmt.Sprintf("record %d delivered %d times", i, len(got[i]))})
+			if oi > 0 {
+				parts[i] += "+"
+			}
+			parts[i] += part
 		}
 	}
 	return "ok:" + strings.Join(parts, ";"), fails
